@@ -251,4 +251,23 @@ example : (CPage.zero.insertRange 60 70).iterM = [60, 61, 62, 63, 64, 65, 66, 67
 example : (CPage.zero.insertRange 60 70).iterAfterM 63 = [64, 65, 66, 67, 68, 69, 70] := by decide
 example : (EIter.new 5).Ok := EIter.new_ok 5 (by decide)
 
+/-- `BitPage::iter_after(value)` (`storage[start_index..]`, `Iter::from(elem, (value & 63) + 1)` on the
+start element, `Iter::new` on the later ones) collected forwards is exactly the members of the page
+strictly greater than `value & 511`, ascending; collected backwards, the same list reversed.  For every
+well-formed page and every `value`. -/
+theorem page_iter_after_refines (p : CPage) (v : Nat) (h : CPageOk p) :
+    p.iterAfterM v = (pageMembers p.abs.bits).filter (fun x => decide (v % 512 < x)) ∧
+      p.iterAfterRevM v = ((pageMembers p.abs.bits).filter (fun x => decide (v % 512 < x))).reverse ∧
+      (∀ x, x ∈ p.iterAfterM v ↔ x < 512 ∧ v % 512 < x ∧ p.abs.bits.testBit x = true) := by
+  refine ⟨CPage.iterAfterM_eq p v h, CPage.iterAfterRevM_eq p v h, fun x => ?_⟩
+  rw [CPage.iterAfterM_eq p v h, List.mem_filter, mem_pageMembers]
+  simp only [decide_eq_true_eq]
+  constructor
+  · rintro ⟨⟨a, b⟩, c⟩; exact ⟨a, c, b⟩
+  · rintro ⟨a, c, b⟩; exact ⟨⟨a, b⟩, c⟩
+
+example : (CPage.zero.insertRange 500 511).iterAfterM 510 = [511] ∧
+    (CPage.zero.insertRange 500 511).iterAfterM 511 = [] ∧
+    (CPage.zero.insertRange 60 70).iterAfterRevM 65 = [70, 69, 68, 67, 66] := by decide
+
 end FontVerif.C14PageConc
